@@ -260,10 +260,10 @@ pub fn run_one(cfg : &Config, seed : u64, k : u64, stats : &mut Stats) -> Vec<Fo
     let files = gen.current_files();
     let hidden = hidden_rules(&rules);
     let hidden_names = gen.hidden_names();
-    stats.inc("runs");
     if hidden.len() == 0 || hidden_names.len() == 0
     {
         stats.inc("c17.generated_without_hidden_input");
+        stats.end_run();
         return vec![];
     }
 
@@ -272,7 +272,7 @@ pub fn run_one(cfg : &Config, seed : u64, k : u64, stats : &mut Stats) -> Vec<Fo
     let original : BTreeMap<String, Vec<u8>> = match model::evaluate(&rules, None, &reader)
     {
         Ok(m) => m.outcomes.values().flat_map(|o| match o { Outcome::Built(ts) => ts.iter().map(|(t, b, _)| (t.clone(), b.clone())).collect::<Vec<_>>(), _ => vec![] }).collect(),
-        Err(_) => return vec![],
+        Err(_) => { stats.end_run(); return vec![]; },
     };
 
     let victim = *rng.pick(&hidden.iter().cloned().collect::<Vec<usize>>());
@@ -301,6 +301,7 @@ pub fn run_one(cfg : &Config, seed : u64, k : u64, stats : &mut Stats) -> Vec<Fo
     if k < 3 * cfg.workers { stats.sample(case.to_j().set("undeclared_input", J::s(&h))); }
 
     let vs = run_case(&case, Some(stats));
+    stats.end_run();
     let mut found = vec![];
     let mut seen = BTreeSet::new();
     for v in vs
